@@ -12,12 +12,48 @@ pub mod common;
 pub mod otround;
 pub mod small;
 pub mod unary32;
+pub mod views;
 
 use vf_core::{Args, Ctx, PanicPolicy};
 
 pub const REPLAY: Option<fn(&mut Ctx, &Args, &serde_json::Value, Option<&[u8]>)> = None;
 
-pub fn run(ctx: &mut Ctx, _args: &Args) {
+/// The slice run under Miri (extra stage "miri" of stages.json): the per-value
+/// batteries of the full workload on boundary + a few random operands, plus the
+/// typed views over relocated byte buffers (`views`). What Miri adds: undefined
+/// behaviour in the `BigEndian` / `bytemuck` impls (reinterpreting `&[u8]`),
+/// shifts and the overflow-checked arithmetic paths.
+fn miri_slice(ctx: &mut Ctx, _args: &Args, acc: &mut common::Acc) {
+    ctx.exhaustive = None;
+    ctx.assumptions.push("Miri slice: a few hundred operand tuples through the per-value batteries of the full workload, interpreted with -Zmiri-symbolic-alignment-check (overflow checks and debug assertions on, as in the strict profile)".into());
+    let n: usize = std::env::var("VF_MIRI_N").ok().and_then(|s| s.parse().ok()).unwrap_or(ctx.tier.pick(12, 60));
+    let lap = |ctx: &mut Ctx, what: &str, t0: f64| {
+        let dt = ctx.elapsed_s() - t0;
+        ctx.count(&format!("wall_ms:miri:{}", what), (dt * 1000.0) as u64);
+    };
+    let t0 = ctx.elapsed_s();
+    views::run(ctx, acc, (n / 6).max(2));
+    acc.flush(ctx);
+    lap(ctx, "views", t0);
+    let t0 = ctx.elapsed_s();
+    small::miri(ctx, acc, n);
+    acc.flush(ctx);
+    lap(ctx, "small", t0);
+    let t0 = ctx.elapsed_s();
+    unary32::miri(ctx, acc, 2 * n);
+    acc.flush(ctx);
+    lap(ctx, "unary32", t0);
+    let t0 = ctx.elapsed_s();
+    binary::miri(ctx, acc, 2 * n);
+    acc.flush(ctx);
+    lap(ctx, "binary", t0);
+    let t0 = ctx.elapsed_s();
+    otround::miri(ctx, acc, 2 * n);
+    acc.flush(ctx);
+    lap(ctx, "otround", t0);
+}
+
+pub fn run(ctx: &mut Ctx, args: &Args) {
     ctx.policy = PanicPolicy::Any;
     ctx.rule = "a case is one (type, operation, operand) evaluation decided by an exact oracle (cases whose exact result is not \
                 representable are not compared and not counted as non-trivial); distinct = distinct (type, operation, operand shape) \
@@ -38,6 +74,9 @@ pub fn run(ctx: &mut Ctx, _args: &Args) {
         serde_json::json!("every 8/16/24-bit pattern of every scalar type; thorough: every 32-bit pattern of Fixed and F26Dot6 for the unary conversions"),
     );
     let mut acc = common::Acc::new();
+    if cfg!(miri) || args.profile == "miri" {
+        return miri_slice(ctx, args, &mut acc);
+    }
     let only = std::env::var("VF_C15_ONLY").unwrap_or_default();
     let t = |ctx: &mut Ctx, what: &str, t0: f64| {
         let dt = ctx.elapsed_s() - t0;
